@@ -541,6 +541,8 @@ func encodeFieldOptions(o *pilosa.FieldOptions) *internal.FieldOptions {
 		BitDepth:    uint64(o.BitDepth),
 		TimeQuantum: string(o.TimeQuantum),
 		Keys:        o.Keys,
+
+		NoStandardView: o.NoStandardView,
 	}
 }
 
@@ -811,6 +813,7 @@ func decodeFieldOptions(options *internal.FieldOptions, m *pilosa.FieldOptions) 
 	m.BitDepth = uint(options.BitDepth)
 	m.TimeQuantum = pilosa.TimeQuantum(options.TimeQuantum)
 	m.Keys = options.Keys
+	m.NoStandardView = options.NoStandardView
 }
 
 func decodeNodes(a []*internal.Node, m []*pilosa.Node) {
